@@ -6,6 +6,7 @@ import hashlib
 import json
 import multiprocessing
 import os
+import pickle
 import random
 import signal
 import subprocess
@@ -272,19 +273,65 @@ def replay_ops(world, leg, cfg, ops, strict=True, known=()):
     return None
 
 
+def run_prelude(world, prelude):
+    """Re-create the process history a violation depended on: execute the named generated runs first."""
+    if not prelude:
+        return
+    for i in prelude['indices']:
+        try:
+            execute(world, prelude['leg'], i, prelude['verif_seed'], set())
+        except Exception:
+            pass
+
+
+def replay_isolated(world, leg, cfg, ops, prelude=None, strict=True):
+    """replay_ops in a forked child, so that hidden process state (module globals, class attributes, default
+    arguments of the library) left behind by one replay cannot influence the next.  Returns violation json or None;
+    raises HarnessError if the child died."""
+    r, w = os.pipe()
+    pid = os.fork()
+    if pid == 0:
+        code = 0
+        try:
+            os.close(r)
+            try:
+                run_prelude(world, prelude)
+                v = replay_ops(world, leg, cfg, ops, strict=strict)
+                data = json.dumps({'v': v}).encode()
+            except BaseException:
+                data = json.dumps({'err': traceback.format_exc()[-3000:]}).encode()
+            with os.fdopen(w, 'wb') as f:
+                f.write(data)
+        except BaseException:
+            code = 3
+        finally:
+            os._exit(code)
+    os.close(w)
+    with os.fdopen(r, 'rb') as f:
+        data = f.read()
+    os.waitpid(pid, 0)
+    if not data:
+        raise HarnessError('isolated replay died without a result')
+    doc = json.loads(data)
+    if 'err' in doc:
+        raise HarnessError('isolated replay raised:\n' + doc['err'])
+    return doc['v']
+
+
 # --------------------------------------------------------------------------------------
 # minimisation
 # --------------------------------------------------------------------------------------
 
-def minimise(world, leg, cfg, ops, signature, budget_s=60):
-    """ddmin over the op list, then per-op shrinking; keeps only candidates with the same signature."""
+def minimise(world, leg, cfg, ops, signature, budget_s=60, prelude=None):
+    """ddmin over the op list, then per-op shrinking; keeps only candidates with the same signature.
+    Every candidate is executed in its own forked process."""
     deadline = time.monotonic() + budget_s
     tests = [0]
 
     def fails(cand):
         tests[0] += 1
         try:
-            v = replay_ops(world, leg, cfg, cand)
+            v = replay_isolated(world, leg, cfg, cand, prelude)
         except Exception:
             return False  # a sub-list the harness cannot execute is simply not a candidate
         return v is not None and v['signature'] == signature
@@ -293,7 +340,7 @@ def minimise(world, leg, cfg, ops, signature, budget_s=60):
         return ops, tests[0], False
     cur = list(ops)
     # drop everything after the failing step first
-    v = replay_ops(world, leg, cfg, cur)
+    v = replay_isolated(world, leg, cfg, cur, prelude)
     if v and v['step'] is not None and v['step'] + 1 < len(cur):
         cand = cur[:v['step'] + 1]
         if fails(cand):
@@ -335,7 +382,41 @@ def minimise(world, leg, cfg, ops, signature, budget_s=60):
     return cur, tests[0], True
 
 
-def write_replay(world, summary, ops, violation, minimised_from, verif_seed, repo_commit):
+def minimise_prelude(world, leg, cfg, ops, signature, prelude, budget_s=60):
+    """The violation needs earlier runs of the same process: find a small set of them (drop-one-chunk ddmin)."""
+    deadline = time.monotonic() + budget_s
+
+    def fails(idx):
+        try:
+            v = replay_isolated(world, leg, cfg, ops, dict(prelude, indices=idx))
+        except Exception:
+            return False
+        return v is not None and v['signature'] == signature
+
+    cur = list(prelude['indices'])
+    if not fails(cur):
+        return None
+    n = 2
+    while len(cur) >= 2 and time.monotonic() < deadline:
+        chunk = max(1, len(cur) // n)
+        reduced = False
+        for i in range(0, len(cur), chunk):
+            cand = cur[:i] + cur[i + chunk:]
+            if fails(cand):
+                cur = cand
+                n = max(n - 1, 2)
+                reduced = True
+                break
+            if time.monotonic() > deadline:
+                break
+        if not reduced:
+            if chunk == 1:
+                break
+            n = min(len(cur), n * 2)
+    return dict(prelude, indices=cur)
+
+
+def write_replay(world, summary, ops, violation, minimised_from, verif_seed, repo_commit, prelude=None):
     os.makedirs(REPLAY_DIR, exist_ok=True)
     doc = {
         'format': 1, 'property': world.prop, 'world': world.name, 'tier': world.tier, 'leg': summary['leg'],
@@ -343,6 +424,9 @@ def write_replay(world, summary, ops, violation, minimised_from, verif_seed, rep
         'config': summary['cfg'], 'ops': ops, 'violation': violation,
         'minimised_from': minimised_from, 'repo_commit': repo_commit,
     }
+    if prelude:
+        # the violation appears only after these generated runs were executed in the same process (hidden state between calls)
+        doc['prelude'] = prelude
     tag = hashlib.sha256(json.dumps([violation['signature'], ops], sort_keys=True, default=str).encode()).hexdigest()[:10]
     path = os.path.join(REPLAY_DIR, '%s-%d-%s-%d-%s.json' % (world.prop, verif_seed, summary['leg'], summary['run_index'], tag))
     with open(path, 'w') as f:
@@ -369,19 +453,49 @@ _KNOWN = None
 _SEED = None
 
 
-def _chunk(args):
+def _chunk_body(args):
     leg, indices, chunk_timeout = args
     faulthandler.dump_traceback_later(chunk_timeout, exit=True)
     try:
         out = []
-        for i in indices:
+        for k, i in enumerate(indices):
             try:
-                out.append(execute(_WORLD, leg, i, _SEED, _KNOWN))
+                r = execute(_WORLD, leg, i, _SEED, _KNOWN)
+                if r.get('violation'):
+                    r['chunk_prefix'] = list(indices[:k])
+                out.append(r)
             except Exception:
                 out.append({'leg': leg, 'run_index': i, 'harness_error': traceback.format_exc()})
         return out
     finally:
         faulthandler.cancel_dump_traceback_later()
+
+
+def _chunk(args):
+    """Every chunk of runs executes in a process forked from a parent that has imported the library but never called
+    it: what a run can observe of earlier runs is exactly the earlier runs of its own chunk, whatever the worker count
+    or scheduling, so a dependence on hidden process state is itself replayable (see 'prelude')."""
+    leg, indices, chunk_timeout = args
+    r, w = os.pipe()
+    pid = os.fork()
+    if pid == 0:
+        code = 0
+        try:
+            os.close(r)
+            out = _chunk_body(args)
+            with os.fdopen(w, 'wb') as f:
+                f.write(pickle.dumps(out))
+        except BaseException:
+            code = 3
+        finally:
+            os._exit(code)
+    os.close(w)
+    with os.fdopen(r, 'rb') as f:
+        data = f.read()
+    _, status = os.waitpid(pid, 0)
+    if not data:
+        return [{'leg': leg, 'run_index': indices[0], 'harness_error': 'the process running chunk %s/%s.. died or hung (wait status %r)' % (leg, indices[0], status)}]
+    return pickle.loads(data)
 
 
 def run_batch(world, verif_seed, workers, budget_s, known, max_runs=None, only_leg=None):
@@ -396,7 +510,7 @@ def run_batch(world, verif_seed, workers, budget_s, known, max_runs=None, only_l
             continue
         if max_runs is not None:
             n = min(n, max_runs)
-        per = max(1, min(getattr(world, 'chunk', 25), (n + workers * 4 - 1) // (workers * 4)))
+        per = max(1, min(getattr(world, 'chunk', 25), (n + 63) // 64))   # independent of the worker count
         for s in range(0, n, per):
             plan.append((leg, list(range(s, min(n, s + per))), RUN_TIMEOUT_S * per + 120))
     results = []
